@@ -148,3 +148,16 @@ prop("C11",
           "adaptation sets and representations added/removed, descriptor values changed): old+patch == new; panics are violations, "
           "rejections by the diff are counted. Non-trivial = a patch with >= 2 operations or one that both adds and removes.",
      quick=dict(shards=2, timeout=400), thorough=dict(shards=16, timeout=1500), assumptions=COMMON)
+
+prop("C10",
+     rule="rapid draws (encryptable asset: bundled AVC/AAC assets or generated layouts; video or audio representation incl. re-segmented audio; "
+          "eccp_cenc, eccp_cbcs and both CPIX packages of the repository's DRM test configuration; addressing Number/Time/Timeline-Number; "
+          "start, startNumber; live index over wraps / 2026 / 2090; whole or chunked delivery). Per case: MPD default_KID and scheme, "
+          "tenc.default_KID and scheme of the served init, key for that kid from the licence endpoint (ClearKey) or from the CPIX file parsed "
+          "independently, decryption of the served segment (every fragment) and sample-wise comparison with the clear segment of the same "
+          "URL and instant; ciphertext must differ from the clear payload. Plus: an asset built from livesim2's own encrypted output is "
+          "refused with eccp_cenc/eccp_cbcs (MPD and segments, Number and Time). Non-trivial = a segment with protected payload that decrypted "
+          "to the clear samples; distinct by hash of the case.",
+     quick=dict(shards=2, timeout=400), thorough=dict(shards=16, timeout=1500),
+     assumptions=COMMON + ["mp4ff's DecryptInit/DecryptSegment are the decryptor (trusted third-party code, separate from the encrypt path)",
+                           "CPIX: only the two packages of pkg/drm/testdata exist offline"])
